@@ -46,6 +46,19 @@ def pyRange (a stop step : Int) : List Int :=
   let n : Int := if step > 0 then (stop - a + step - 1) / step else (a - stop + (-step) - 1) / (-step)
   (List.range n.toNat).map fun (i : Nat) => a + (i : Int) * step
 
+/-- `dt2int[t]` for the table `tbl` (a list of days and its index function) -/
+def clockOfT (tbl : List Int) (t : Int) : Res Nat :=
+  match idxIn t tbl with
+  | some i => .ok i
+  | none => .error .key
+
+/-- `int2dt[j]` (a dict: negative keys are absent) -/
+def atIdxT (tbl : List Int) (j : Int) : Res Int :=
+  if j < 0 then .error .key else
+  match tbl[j.toNat]? with
+  | some r => .ok r
+  | none => .error .key
+
 inductive Adj where
   | f | p | m
   deriving Repr, DecidableEq, Inhabited
@@ -93,46 +106,40 @@ def bd (c : Cal) (a b : Int) : List Int := (daysFromTo a b).filter c.isB
 /-- `_populate` (_drange.py:381-390): `int2dt` is this list, `dt2int` its inverse -/
 def bdays (c : Cal) : List Int := c.bd c.t0 c.t1
 
-/-- `dt2int[t]` -/
-def clockOf (c : Cal) (t : Int) : Res Nat :=
-  match idxIn t c.bdays with
-  | some i => .ok i
-  | none => .error .key
-
-/-- `int2dt[j]` (a dict: negative keys are absent) -/
-def atIdx (c : Cal) (j : Int) : Res Int :=
-  if j < 0 then .error .key else
-  match c.bdays[j.toNat]? with
-  | some r => .ok r
-  | none => .error .key
-
 /-- fuel of the `|days| ≤ 1` loop of `add`: enough to reach the next business day inside the range
 (proved: CalendarLemmas) and generous beyond it -/
 def addFuel (c : Cal) : Nat := (c.t1 - c.t0).toNat + 7 * c.hol.length + 16
 
-/-- `add(date, days, adj)` (_drange.py:642-651): table lookup for `|days| > 1`, loop otherwise.
+/-- `add(date, days, adj)` (_drange.py:642-651) over a given table: lookup for `|days| > 1`, loop otherwise.
 For `days = 0` on a non-business day the real loop never ends; the driver refuses that input. -/
-def add (c : Cal) (a : Adj) (t n : Int) : Res Int :=
+def addT (c : Cal) (tbl : List Int) (a : Adj) (t n : Int) : Res Int :=
   let s := c.adjust a t
   if n.natAbs > 1 then do
-    let i ← c.clockOf s
-    c.atIdx (i + n)
+    let i ← clockOfT tbl s
+    atIdxT tbl (i + n)
   else if n = 1 then .ok (loopUp c.isHol c.addFuel (s + 1))
   else if n = -1 then .ok (loopDown c.isHol c.addFuel (s - 1))
   else .ok s
 
 /-- `bdays(t0, t1, adj)` (_drange.py:653-656); the right operand `t1` is looked up first -/
-def bdaysBetween (c : Cal) (a : Adj) (x y : Int) : Res Int := do
-  let iy ← c.clockOf (c.adjust a y)
-  let ix ← c.clockOf (c.adjust a x)
+def bdaysBetweenT (c : Cal) (tbl : List Int) (a : Adj) (x y : Int) : Res Int := do
+  let iy ← clockOfT tbl (c.adjust a y)
+  let ix ← clockOfT tbl (c.adjust a x)
   pure ((iy : Int) - (ix : Int))
 
 /-- `Calendar.drange(t0, t1, 'kb')` (_drange.py:660-665), `k = b` -/
-def drangeB (c : Cal) (x y : Int) (b : Int) : Res (List Int) := do
-  let i0 ← c.clockOf (c.adjust c.adj x)
-  let i1 ← c.clockOf (c.adjust c.adj y)
+def drangeBT (c : Cal) (tbl : List Int) (x y : Int) (b : Int) : Res (List Int) := do
+  let i0 ← clockOfT tbl (c.adjust c.adj x)
+  let i1 ← clockOfT tbl (c.adjust c.adj y)
   if b = 0 then .error .value else
-  (pyRange i0 (i1 + b) b).mapM c.atIdx
+  (pyRange i0 (i1 + b) b).mapM (atIdxT tbl)
+
+/-! The calendar's own operations use its own table `c.bdays` (built lazily, once, by `_populate`).  The `…T`
+forms exist so that the driver can compute the table once per calendar instead of once per request. -/
+
+def add (c : Cal) (a : Adj) (t n : Int) : Res Int := c.addT c.bdays a t n
+def bdaysBetween (c : Cal) (a : Adj) (x y : Int) : Res Int := c.bdaysBetweenT c.bdays a x y
+def drangeB (c : Cal) (x y : Int) (b : Int) : Res (List Int) := c.drangeBT c.bdays x y b
 
 end Cal
 
